@@ -78,9 +78,16 @@ type file struct {
 	name   string
 	ino    *inode
 	rpos   int
+	wpos   int  // write offset (ignored with app)
+	app    bool // O_APPEND
 	closed bool
 	ro     bool
+	wo     bool
 }
+
+func (fl *file) Name() string { return fl.name }
+
+func (fl *file) WriteString(s string) (int, error) { return fl.Write([]byte(s)) }
 
 func pathErr(op, name string, err error) error { return &fs.PathError{Op: op, Path: name, Err: err} }
 
@@ -100,6 +107,47 @@ func (f *FS) Open(name string) (verifhook.File, error) {
 		return nil, pathErr("open", name, os.ErrNotExist)
 	}
 	return &file{fs: f, name: name, ino: ino, ro: true}, nil
+}
+
+// OpenFile models the flag combinations of os.OpenFile on regular files: O_CREATE (with
+// O_EXCL), O_TRUNC, O_APPEND and the access modes. An existing file opened without O_TRUNC
+// keeps its contents: writes overwrite from offset 0, or extend the file with O_APPEND.
+func (f *FS) OpenFile(name string, flag int, perm os.FileMode) (verifhook.File, error) {
+	acc := flag & (os.O_RDONLY | os.O_WRONLY | os.O_RDWR)
+	ino, exists := f.dir[name]
+	if acc == os.O_RDONLY && flag&(os.O_CREATE|os.O_TRUNC) == 0 {
+		return f.Open(name)
+	}
+	if k := f.op("openfile " + name); k != "" {
+		return nil, pathErr("open", name, faultErr(k))
+	}
+	switch {
+	case !exists && flag&os.O_CREATE == 0:
+		return nil, pathErr("open", name, os.ErrNotExist)
+	case exists && flag&os.O_CREATE != 0 && flag&os.O_EXCL != 0:
+		return nil, pathErr("open", name, os.ErrExist)
+	case !exists:
+		ino = &inode{}
+		f.dir[name] = ino
+		f.pending = append(f.pending, dirOp{kind: "create", name: name, ino: ino})
+	case flag&os.O_TRUNC != 0:
+		// same inode, emptied; the truncation becomes durable with the next Sync of the file
+		ino.data = nil
+	}
+	return &file{fs: f, name: name, ino: ino, app: flag&os.O_APPEND != 0, ro: acc == os.O_RDONLY, wo: acc == os.O_WRONLY}, nil
+}
+
+func (f *FS) Remove(name string) error {
+	if k := f.op("remove " + name); k != "" {
+		return pathErr("remove", name, faultErr(k))
+	}
+	ino, ok := f.dir[name]
+	if !ok {
+		return pathErr("remove", name, os.ErrNotExist)
+	}
+	delete(f.dir, name)
+	f.pending = append(f.pending, dirOp{kind: "remove", name: name, ino: ino})
+	return nil
 }
 
 func (f *FS) Rename(oldpath, newpath string) error {
@@ -137,22 +185,33 @@ func (fl *file) Write(p []byte) (int, error) {
 		if len(p) > 0 {
 			k = f.Choose(len(p)+1, "crash-write-prefix")
 		}
-		fl.ino.data = append(fl.ino.data, p[:k]...)
+		fl.put(p[:k])
 	}
 	switch f.op("write " + fl.name) {
 	case "enospc", "eio":
 		return 0, pathErr("write", fl.name, faultErr("enospc"))
 	case "short":
 		k := len(p) / 2
-		fl.ino.data = append(fl.ino.data, p[:k]...)
+		fl.put(p[:k])
 		return k, io.ErrShortWrite
 	}
-	fl.ino.data = append(fl.ino.data, p...)
+	fl.put(p)
 	return len(p), nil
 }
 
+// put writes at the file's offset (the end of the file with O_APPEND).
+func (fl *file) put(p []byte) {
+	d := fl.ino.data
+	if fl.app || fl.wpos > len(d) {
+		fl.wpos = len(d)
+	}
+	n := copy(d[fl.wpos:], p)
+	fl.ino.data = append(d, p[n:]...)
+	fl.wpos += len(p)
+}
+
 func (fl *file) Read(p []byte) (int, error) {
-	if fl.closed {
+	if fl.closed || fl.wo {
 		return 0, pathErr("read", fl.name, os.ErrClosed)
 	}
 	if fl.rpos >= len(fl.ino.data) {
@@ -198,6 +257,8 @@ func (f *FS) Crash() {
 		case "rename":
 			delete(f.durDir, op.name)
 			f.durDir[op.to] = op.ino
+		case "remove":
+			delete(f.durDir, op.name)
 		}
 	}
 	f.pending = nil
@@ -213,6 +274,11 @@ func (f *FS) Crash() {
 		if len(ino.data) > len(d) && string(ino.data[:len(d)]) == string(d) {
 			extra := f.Choose(len(ino.data)-len(d)+1, "crash-unsynced-tail")
 			d = append(append([]byte(nil), d...), ino.data[len(d):len(d)+extra]...)
+		} else if string(ino.data) != string(d) && !(len(ino.data) > len(d)) || len(ino.data) > len(d) && string(ino.data[:len(d)]) != string(d) {
+			// overwritten or truncated in place without a Sync: either version may be on disk
+			if f.Choose(2, "crash-overwrite-fate") == 1 {
+				d = ino.data
+			}
 		}
 		ni := &inode{data: append([]byte(nil), d...), durable: append([]byte(nil), d...)}
 		nd[n] = ni
@@ -235,6 +301,8 @@ func (f *FS) SyncAll() {
 		case "rename":
 			delete(f.durDir, op.name)
 			f.durDir[op.to] = op.ino
+		case "remove":
+			delete(f.durDir, op.name)
 		}
 	}
 	f.pending = nil
